@@ -70,6 +70,12 @@ PLANS = {
             enum_iter("asan", 4, 5, True, extra=1, tiers=("quick",), asan_options=ASAN_NOLEAK), enum_iter("asan", 12, 7, True, extra=1, random=1000, tiers=("thorough",), asan_options=ASAN_NOLEAK),
             enum_iter("miri", 16, 2, True, extra=1, bare=True, tiers=("quick",), miri_flags=LEAK_OK_MIRI), enum_iter("miri", 16, 4, True, extra=1, bare=True, tiers=("thorough",), miri_flags=LEAK_OK_MIRI)],
     "C20": [hist("hash", 12, 480000, 7500000), hist("realloc", 2, 480000, 3000000), hist("evict", 2, 480000, 3000000)],
+    "C08": [job("memsize", "native", 8, [], budget={"quick": 600, "thorough": 30000}, budget_arg="rounds"),
+            job("memsize", "debug0", 4, [], budget={"quick": 60, "thorough": 1500}, budget_arg="rounds"),
+            job("memsize_total", "debug0", 18, ["--case", "{shard}", "--thread", "main"], budget={"quick": 1000000, "thorough": 4000000}, budget_arg="n", verdict="exit", prop="C08"),
+            job("memsize_total", "debug0", 18, ["--case", "{shard}", "--thread", "small"], budget={"quick": 1000000, "thorough": 4000000}, budget_arg="n", verdict="exit", prop="C08"),
+            job("memsize_total", "native", 18, ["--case", "{shard}", "--thread", "small"], budget={"quick": 1000000, "thorough": 10000000}, budget_arg="n", verdict="exit", prop="C08")],
+    "C09": [job("memsize", "native", 8, [], budget={"quick": 1500, "thorough": 60000}, budget_arg="rounds")],
     "C10": [hist("insert", 14, 480000, 9000000), hist("mixed", 2, 480000, 4500000)],
     "C11": [hist("mutate", 14, 480000, 9000000), hist("mixed", 2, 480000, 4500000)],
 }
@@ -94,6 +100,8 @@ FLOORS = {
             "c16_further_use_ops": 100000, "c16_dropped_after": 100000},
     "C17": {"evaluations": {"quick": 10000, "thorough": 100000}, "distinct": 2000, "sum:c17_forgot_": 2000, "c17_forgot_drain": 300, "c17_further_use_ops": 2000, "c17_caches_dropped_after_forget": 1000},
     "C20": {"evaluations": {"quick": 300000, "thorough": 10000000}, "distinct": 150, "c20_rebuilds": 2000, "c20_with_departures": 5000},
+    "C08": {"evaluations": {"quick": 500000, "thorough": 20000000}, "distinct": 3000, "c08_bulk_shapes_checked": 100000, "c08_totality_cases_debug0": 36, "c08_totality_cases_native": 18},
+    "C09": {"evaluations": {"quick": 100000, "thorough": 4000000}, "distinct": 400, "c09_exact_values": 80000, "c09_bounded_values": 5000, "c09_values_holding_memory": 50000},
     "C10": {"evaluations": {"quick": 100000, "thorough": 3000000}, "distinct": 40, "each:c10_": 100},
     "C11": {"evaluations": {"quick": 100000, "thorough": 3000000}, "distinct": 30, "each:c11_class": 10},
 }
@@ -113,6 +121,8 @@ RULES = {
     "C16": "Fault enumeration: small cache states built by random histories (0-14 events, universe 3-8, all hashers, incl. table exactly full and cache full); for each state ~40 operations covering the whole mutating and cloning API; a counting run yields the number of user callbacks per class (hash, eq, clone, key size, value size, mutate closure, retain predicate); then for EVERY class and EVERY index n the state is rebuilt by replay, the n-th callback panics, and the monitor checks: hook walk both ways mirrors / == len() / node set == buckets, public traversals and lookups agree, current_size == sum of recorded sizes, no held object dropped, no double drop; closure panics additionally bound + nothing lost; then 6-20 further random operations with the same checks, then drop. Same under ASan and Miri (touching a freed bucket is a hard report). evaluations = injected panics that fired; distinct = (operation, class, index, state length, hasher, rebuilt?, post length).",
     "C17": "Fault enumeration: for each of the 7 iterator kinds, every length 0..=N and every next/next_back string of length <= len+1, the iterator is mem::forget-ed; afterwards the cache (if any) is observed (gate G1-G3), must not list any object the iterator handed out, is used by ~12 further operations with all transition oracles on, and is dropped; the ledger must show no double drop. Same under ASan (leak check off) and Miri (-Zmiri-ignore-leaks).",
     "C20": "Hash-call counter (owned + borrowed key forms) read around every API call: <= 2 + departures, + held entries only when the hook shows the table was re-allocated by an operation allowed to rebuild; == 0 for traversals, clear, drain, peek_lru/peek_mru. distinct = (operation, length class, #departures class, rebuilt?, #hashes).",
+    "C08": "Type matrix of 115 concrete nestings of the supported constructors (leaves, String/OsString/CString/PathBuf, Vec, Box<sized/slice/str/CStr/Path>, arrays of length 0/1/3 incl. arrays of arrays, tuples of arity 1-10, Option, Result, Wrapping, all range types, Mutex, RwLock, BinaryHeap, HashMap, HashSet, references) with random spare capacity at every level. For each random value: mem_size == value_size + heap_size, value_size == size_of, heap_size == an independently written composition law (u128). For random vectors of each type: the four bulk helpers == element-wise sums over 9 iterator shapes (plain, rev, skip/take, step_by, index-mapped with repeats, empty, filtered, chained, take_while) - exact-size variants on the exact-size shapes; unsized elements ([String], str, Path, CStr) through references. Totality: 18 big inputs (10^6-10^7 elements, runs of zero-length arrays, ZSTs) each in its own process built at opt-level 0 and in release, on the main thread and on a default 2 MiB thread; verdict = exit status. distinct = (type, shape/helper, value class).",
+    "C09": "Same 115-type matrix; each value is built INSIDE an attribution scope of the harness' counting global allocator by a random plan of with_capacity / push / reserve / reserve_exact / shrink_to / shrink_to_fit / truncate / pop / into_boxed_* steps at every nesting level; heap_size() must equal the live bytes attributed to the value (exactly, for everything not containing a hash table); for values containing HashMap/HashSet: capacity x entry size + elements <= heap_size <= live bytes; references contribute 0 (their targets are allocated outside the scope). distinct = (type, holds memory?, exact?, size class).",
     "C10": "insert/try_insert with sizes aimed at both sides of every threshold; classification, payload, identity of the returned pair and 'nothing changed' computed from the pre-state. distinct = (insert|try_insert, which failure conditions hold at once, boundary hit, length class, cache exactly full?).",
     "C11": "mutate at every position with shrink / same / fits / needs k evictions / too large; closure-ran flag, forwarded token, order, recorded size (hook), evictions and error payload compared with the spec computed from the pre-state. distinct = (present?, size-change class, position, #evictions class, exact fit, length class).",
 }
